@@ -4,7 +4,7 @@ from concurrent.futures import ThreadPoolExecutor
 HERE = os.path.dirname(os.path.abspath(__file__)); VERIF = os.path.dirname(HERE)
 REPO = os.environ.get('VERIF_REPO', '/repo')
 NDIR = os.path.join(VERIF, 'work', 'native')
-FLAGS = ['-std=c++17', '-O1', '-g', '-fno-omit-frame-pointer', '-DSQFVM_BUILD', '-DDISABLE_CLIPBOARD', '-I' + os.path.join(REPO, 'src'), '-I' + os.path.join(REPO, 'include/tclap-1.2.2/include'), '-I' + os.path.join(VERIF, 'harness')]
+FLAGS = ['-std=c++17', '-O1', '-g', '-fno-omit-frame-pointer', '-DSQFVM_BUILD', '-DDISABLE_CLIPBOARD', '-Wno-builtin-macro-redefined', '-D__DATE__="Jan  1 2000"', '-D__TIME__="00:00:00"', '-I' + os.path.join(REPO, 'src'), '-I' + os.path.join(REPO, 'include/tclap-1.2.2/include'), '-I' + os.path.join(VERIF, 'harness')]
 SAN = ['-fsanitize=address,undefined', '-fno-sanitize-recover=undefined']
 
 def _obj(src, flags):
